@@ -50,7 +50,10 @@ type seqCase struct {
 	T0    uint64    `json:"t0"`
 	NRes  int       `json:"nres"`  // resources 0..NRes-1 (some may have no rule)
 	Rules [][]ruleT `json:"rules"` // per resource
-	Ops   []opT     `json:"ops"`
+	// Prologue, if non-empty, is loaded at T0 immediately before Rules (no traffic in between): a
+	// rule reload whose statistics (all empty, all created at T0) may be handed over to Rules
+	Prologue [][]ruleT `json:"prologue,omitempty"`
+	Ops      []opT     `json:"ops"`
 	TF    uint64    `json:"tf"`
 }
 
@@ -126,6 +129,45 @@ func genSeq(r *rng.R, id int) seqCase {
 			}
 		}
 		c.Rules = append(c.Rules, rs)
+	}
+	// several rules of one resource on the same independent interval (each must get its own window)
+	shared := r.Chance(1, 5)
+	if shared {
+		itv := uint32(r.PickI(3000, 1500, 750, 250, 300, 20000, 7))
+		for len(c.Rules[0]) < 2 {
+			c.Rules[0] = append(c.Rules[0], genRule(r, c.NRes, 0))
+		}
+		for j := range c.Rules[0] {
+			c.Rules[0][j].Itv = itv
+			c.Rules[0][j].Assoc, c.Rules[0][j].Ref = false, 0
+			if r.Chance(2, 3) {
+				c.Rules[0][j].Thr = r.PickF(2, 3, 4, 4, 5)
+				c.Rules[0][j].ThrS = fstr(c.Rules[0][j].Thr)
+			}
+		}
+	}
+	// a reload: sibling rules (same resource, relation, interval; other thresholds) are in force
+	// when Rules is loaded, so their statistics are reused by the rule manager
+	if shared || r.Chance(1, 3) {
+		for i, rs := range c.Rules {
+			var ps []ruleT
+			k := 0
+			if len(rs) > 0 {
+				k = 1 + r.Intn(len(rs))
+				if shared && i == 0 && r.Chance(2, 3) {
+					k = 1
+				}
+			}
+			for j := 0; j < k; j++ {
+				p := rs[j]
+				if p.Thr >= 0 && !math.IsInf(p.Thr, 1) {
+					p.Thr += 1000.5
+				}
+				p.ThrS = fstr(p.Thr)
+				ps = append(ps, p)
+			}
+			c.Prologue = append(c.Prologue, ps)
+		}
 	}
 	// the bucket lengths in play, for boundary-directed time steps
 	steps := []uint64{500, 1000, 10000}
@@ -270,6 +312,11 @@ func nodePass(id, res int) (int64, bool) {
 
 func runSeq(c seqCase, clk *vclock.Clock) (obs []obsT, nodeAfter []int64, fin []finT) {
 	clk.SetMs(c.T0)
+	if len(c.Prologue) > 0 {
+		if _, err := flow.LoadRules(mkRules(c.ID, c.Prologue)); err != nil {
+			panic(err)
+		}
+	}
 	if _, err := flow.LoadRules(mkRules(c.ID, c.Rules)); err != nil {
 		panic(err)
 	}
@@ -567,6 +614,12 @@ type concCase struct {
 	Prefill []uint32 `json:"prefill"` // sequential admissions before the schedule
 	Batches []uint32 `json:"batches"` // one per goroutine
 	Sched   []int    `json:"schedule"` // goroutine index per step; negative = advance the clock by -x ms
+	// Reset cases: the prefill is recorded at T0, the clock then advances by Gap (whole array
+	// cycles, same bucket), a first request is stepped through the yields of the bucket reset it
+	// triggers (110-113, 104) and at each stop where Coins says so another request runs its rule check
+	Reset bool   `json:"reset,omitempty"`
+	Gap   uint64 `json:"gap,omitempty"`
+	Coins []bool `json:"coins,omitempty"`
 }
 
 type concEv struct {
@@ -605,7 +658,126 @@ func genConc(r *rng.R, id int) concCase {
 	return c
 }
 
+func genReset(r *rng.R, id int) concCase {
+	c := concCase{ID: id, Reset: true}
+	c.T0 = 1700000000000 + uint64(r.Range(0, 20000))
+	thr := r.PickF(1, 2, 2, 3, 2.5)
+	x := ruleT{Thr: thr, Itv: uint32(r.PickI(0, 0, 1000, 2000, 5000))}
+	x.ThrS = fstr(x.Thr)
+	c.Rules = []ruleT{x}
+	np := int(math.Floor(thr))
+	if r.Chance(1, 4) {
+		np--
+	}
+	for i := 0; i < np; i++ {
+		c.Prefill = append(c.Prefill, 1)
+	}
+	// whole cycles of the shared 10 s array, staying inside the 500 ms bucket of T0
+	c.Gap = uint64(r.PickI(1, 1, 1, 2, 3))*10000 + uint64(r.Range(0, int64(499-c.T0%500)))
+	for i := 0; i < 12; i++ {
+		c.Coins = append(c.Coins, r.Chance(2, 3))
+	}
+	c.Batches = []uint32{1}
+	return c
+}
+
+// runReset: see concCase.Reset. Only rule checks (read-only) are interleaved with the reset: a
+// statistic phase that met the slot mid-reset would spin on the update lock.
+func runReset(c concCase, clk *vclock.Clock) (evs []concEv, obs []obsT, fin []finT, tf uint64, maxPending int) {
+	clk.SetMs(c.T0)
+	if _, err := flow.LoadRules(mkRules(c.ID, [][]ruleT{c.Rules})); err != nil {
+		panic(err)
+	}
+	res := resName(c.ID, 0)
+	var ents []*base.SentinelEntry
+	tid := 1000
+	for _, b := range c.Prefill {
+		e, blk := sentinel.Entry(res, sentinel.WithBatchCount(b))
+		evs = append(evs, concEv{Kind: "chk", Tid: tid, T: c.T0, B: b}, concEv{Kind: "rec", Tid: tid, T: c.T0})
+		if blk != nil {
+			obs = append(obs, observeBlock(blk), obsT{Kind: "none"})
+		} else {
+			ents = append(ents, e)
+			obs = append(obs, obsT{Kind: "pass"}, obsT{Kind: "none"})
+		}
+		tid++
+	}
+	now := c.T0 + c.Gap
+	clk.SetMs(now)
+	s := sched.New(func(id int) bool { return id == 400 || (id >= 110 && id <= 113) || id == 104 })
+	defer s.Close()
+	var outs []*obsT
+	var got []*base.SentinelEntry
+	var chkPos []int
+	spawn := func() int {
+		o := &obsT{}
+		outs = append(outs, o)
+		got = append(got, nil)
+		i := len(outs) - 1
+		return s.Spawn(func() {
+			e, blk := sentinel.Entry(res, sentinel.WithBatchCount(1))
+			if blk != nil {
+				*o = observeBlock(blk)
+			} else {
+				*o = obsT{Kind: "pass"}
+				got[i] = e
+			}
+		})
+	}
+	check := func(t int) { // run thread t from Start to the chain yield
+		if l := s.Step(t); l != 400 {
+			panic(fmt.Sprintf("thread %d: expected to park at 400, got %d", t, l))
+		}
+		evs = append(evs, concEv{Kind: "chk", Tid: t, T: now, B: 1})
+		chkPos = append(chkPos, len(obs))
+		obs = append(obs, obsT{})
+	}
+	g1 := spawn()
+	check(g1)
+	others := []int{}
+	for i := 0; !s.IsDone(g1); i++ {
+		l := s.Step(g1)
+		if l == -2 {
+			panic("first request blocked outside a yield")
+		}
+		if l == sched.Done {
+			break
+		}
+		if i < len(c.Coins) && c.Coins[i] && len(others) < 10 {
+			t := spawn()
+			check(t)
+			others = append(others, t)
+		}
+	}
+	maxPending = 1 + len(others)
+	finish := func(t int) {
+		if !s.IsDone(t) {
+			if l := s.Finish(t); len(l) == 0 || l[len(l)-1] != sched.Done {
+				panic(fmt.Sprintf("thread %d did not finish: %v", t, l))
+			}
+		}
+		evs = append(evs, concEv{Kind: "rec", Tid: t, T: now})
+		obs[chkPos[t]] = *outs[t]
+		obs = append(obs, obsT{Kind: "none"})
+	}
+	finish(g1)
+	for _, t := range others {
+		finish(t)
+	}
+	tf = now
+	fin = finalState(c.ID, 1)
+	for _, e := range append(ents, got...) {
+		if e != nil {
+			e.Exit()
+		}
+	}
+	return
+}
+
 func runConc(c concCase, clk *vclock.Clock) (evs []concEv, obs []obsT, fin []finT, tf uint64, maxPending int) {
+	if c.Reset {
+		return runReset(c, clk)
+	}
 	clk.SetMs(c.T0)
 	if _, err := flow.LoadRules(mkRules(c.ID, [][]ruleT{c.Rules})); err != nil {
 		panic(err)
@@ -763,6 +935,7 @@ func coqConc(c concCase, evs []concEv, obs []obsT, fin []finT, tf uint64) string
 }
 
 const concBase = 100000
+const resetBase = 200000
 
 func thrClass(t float64) string {
 	switch {
@@ -789,11 +962,17 @@ func main() {
 	clk.Install()
 	root := rng.New(a.Seed)
 	rep := emit.NewReport("C02", a.Seed, a.Tier)
-	rep.Rule = "sequential: 1-3 resources, 0-3 reject/direct rules each (thresholds 0, fractional, small, large, invalid, Inf, NaN; StatIntervalInMs 0,1000,2000,2500,250,300,750,20000,1500,3000,500,5000,10000,1,7; associated-resource rules), 8-45 Entry/Exit operations under the virtual clock with time steps 0, small, to bucket/window boundaries -1/0/+1, whole windows, idle gaps longer than the 10 s array; concurrent: k=2-4 goroutines parked at the chain yield between rule check and statistics, random interleavings with clock ticks. Non-trivial = at least one admission, one rejection and one 500 ms bucket boundary crossed (sequential) / at least two requests simultaneously inside the admission path (concurrent); distinct by full input."
+	rep.Rule = "sequential: 1-3 resources, 0-3 reject/direct rules each (thresholds 0, fractional, small, large, invalid, Inf, NaN; StatIntervalInMs 0,1000,2000,2500,250,300,750,20000,1500,3000,500,5000,10000,1,7; associated-resource rules), 8-45 Entry/Exit operations under the virtual clock with time steps 0, small, to bucket/window boundaries -1/0/+1, whole windows, idle gaps longer than the 10 s array; concurrent: k=2-4 goroutines parked at the chain yield between rule check and statistics, random interleavings with clock ticks; reload: in a share of the cases sibling rules are loaded just before the case's rules (statistic reuse), incl. several rules of one resource on the same independent interval; reset: the first request after whole idle array cycles is stepped through the yields of the bucket reset (110-113, 104) while other requests run their rule check against a slot holding up to T tokens from exactly one cycle earlier. Non-trivial = at least one admission, one rejection and one 500 ms bucket boundary crossed (sequential) / at least two requests simultaneously inside the admission path (concurrent); distinct by full input."
 	nSeqCorr := a.Pick(a.N, 150, 3000)
 	nConcCorr := a.Pick(a.N, 40, 800)
 	nSeqMon := a.Pick(a.Mon, 3000, 60000)
 	nConcMon := a.Pick(a.Mon, 400, 6000)
+	nResetCorr := a.Pick(a.N, 30, 400)
+	nResetMon := a.Pick(a.Mon, 150, 2000)
+	if a.Search {
+		nResetCorr = 0
+		nResetMon *= 5
+	}
 	if a.Search {
 		nSeqCorr, nConcCorr = 0, 0
 		nSeqMon *= 5
@@ -827,6 +1006,22 @@ func main() {
 		}
 		if c.T0 < 100000 {
 			rep.Count("cases_near_time_zero", 1)
+		}
+		if len(c.Prologue) > 0 {
+			rep.Count("cases_with_reload_prologue", 1)
+		}
+		for _, rs := range c.Rules {
+			seen := map[uint32]int{}
+			for _, x := range rs {
+				if _, _, ind := ruleGeom(x.Itv); ind && !x.Assoc && ruleInForce(x) {
+					seen[x.Itv]++
+				}
+			}
+			for _, n := range seen {
+				if n >= 2 {
+					rep.Count("resources_with_rules_sharing_an_independent_interval", 1)
+				}
+			}
 		}
 		for _, rs := range c.Rules {
 			rep.Count("rules_per_resource_"+strconv.Itoa(len(rs)), 1)
@@ -877,7 +1072,13 @@ func main() {
 		}
 	}
 	runOneConc := func(id int, corr bool) {
-		c := genConc(root.Fork(uint64(id)), id)
+		var c concCase
+		if id >= resetBase {
+			c = genReset(root.Fork(uint64(id)), id)
+			rep.Count("reset_cases", 1)
+		} else {
+			c = genConc(root.Fork(uint64(id)), id)
+		}
 		evs, obs, fin, tf, maxP := runConc(c, clk)
 		rep.Evaluations++
 		rep.Count("conc_cases", 1)
@@ -894,7 +1095,7 @@ func main() {
 			sh.Add(id, coqConc(c, evs, obs, fin, tf))
 			rep.CorrCases++
 			rep.CaseInputs[strconv.Itoa(id)] = c
-			if id == concBase {
+			if id == concBase || id == resetBase {
 				rep.Sample(map[string]interface{}{"input": c, "events": evs, "observed": obs})
 			}
 		}
@@ -920,6 +1121,9 @@ func main() {
 	}
 	for j := 0; j < nConcMon; j++ {
 		runOneConc(concBase+j, j < nConcCorr)
+	}
+	for j := 0; j < nResetMon; j++ {
+		runOneConc(resetBase+j, j < nResetCorr)
 	}
 	rep.DistinctNontrivial = dist.N()
 	rep.Consts["config.GlobalStatisticSampleCountTotal"] = config.GlobalStatisticSampleCountTotal()
